@@ -88,6 +88,8 @@ def resolve(t, cur, xpt=None):
     if isinstance(t, list):             # ["tap", merkle_root_hex]: BIP-341 TapTweak of the internal key (x-only operations), else a plain hash
         root = bytes.fromhex(t[1])
         return K.taproot_tweak(xpt, root) if xpt is not None else ec.b2i(ec.tagged_hash("TapTweak", b32(cur) + root))
+    if t == "alias_self":               # the tweak argument IS the 32-byte key buffer (value at call time = the key)
+        return cur
     if t == "neg_cur":
         return N - cur
     if t == "neg_cur_p1":
@@ -104,20 +106,20 @@ def resolve(t, cur, xpt=None):
     return {"n": N, "n_p1": N + 1, "n_m1": N - 1, "max": M256, "zero": 0, "one": 1, "two": 2, "half": (N + 1) // 2}[t]
 
 
-SYMBOLIC = ["neg_cur", "neg_cur", "neg_cur_p1", "neg_cur_m1", "neg_cur_plus_n", "inv_cur", "neg_inv_cur", "n", "n", "n_p1", "n_m1", "max", "zero",
+SYMBOLIC = ["alias_self", "alias_self", "neg_cur", "neg_cur", "neg_cur_p1", "neg_cur_m1", "neg_cur_plus_n", "inv_cur", "neg_inv_cur", "n", "n", "n_p1", "n_m1", "max", "zero",
             "zero", "one", "two", "half"]
 tweak_st = st.one_of(st.sampled_from(SYMBOLIC), gens.u256_edge, gens.seckey_valid, st.integers(0, M256),
                      st.sampled_from(["", "00" * 32, "ab" * 32]).map(lambda r: ["tap", r]))
 INVALID_KEYS = ["zero", "n", "n_p1", "max"]
 
 _op = st.one_of(
-    st.builds(lambda t: {"op": "tweak_add", "t": t}, tweak_st),
-    st.builds(lambda t: {"op": "tweak_add", "t": t}, tweak_st),
-    st.builds(lambda t: {"op": "tweak_mul", "t": t}, tweak_st),
-    st.builds(lambda t: {"op": "tweak_mul", "t": t}, tweak_st),
-    st.just({"op": "negate"}),
-    st.builds(lambda t, c: {"op": "xonly_tweak_add", "t": t, "chk": c}, tweak_st, st.integers(0, 63)),
-    st.builds(lambda t, c: {"op": "xonly_tweak_add", "t": t, "chk": c}, tweak_st, st.integers(0, 63)),
+    st.builds(lambda t, ip: {"op": "tweak_add", "t": t, "inplace": ip}, tweak_st, st.booleans()),
+    st.builds(lambda t, ip: {"op": "tweak_add", "t": t, "inplace": ip}, tweak_st, st.booleans()),
+    st.builds(lambda t, ip: {"op": "tweak_mul", "t": t, "inplace": ip}, tweak_st, st.booleans()),
+    st.builds(lambda t, ip: {"op": "tweak_mul", "t": t, "inplace": ip}, tweak_st, st.booleans()),
+    st.builds(lambda ip: {"op": "negate", "inplace": ip}, st.booleans()),
+    st.builds(lambda t, c: {"op": "xonly_tweak_add", "t": t, "chk": c}, tweak_st, st.integers(0, 127)),
+    st.builds(lambda t, c: {"op": "xonly_tweak_add", "t": t, "chk": c}, tweak_st, st.integers(0, 127)),
     st.builds(lambda t: {"op": "keypair_xonly_tweak_add", "t": t}, tweak_st),
     st.builds(lambda t: {"op": "keypair_xonly_tweak_add", "t": t}, tweak_st),
     st.just({"op": "keypair_create"}),
@@ -171,13 +173,22 @@ def run_history(env, case):
             tb = b32(t)
             exp = (K.seckey_tweak_add if name == "tweak_add" else K.seckey_tweak_mul)(sk, t)
             sec = buf(32, skb)
-            pk2 = buf(64, pk.raw)
+            # aliasing: the tweak argument is the key buffer itself (nothing in the API forbids it; the result must be the one for the
+            # values held at call time); in place: the public side works on the live object instead of a byte copy of it
+            alias = op["t"] == "alias_self"
+            tsec = sec if alias else tb
+            if alias:
+                classes.add("alias:tweak_is_key")
+            inplace = bool(op.get("inplace")) and exp is not None
+            pk2 = pk if inplace else buf(64, pk.raw)
+            if inplace:
+                classes.add("alias:inplace")
             if name == "tweak_add":
-                r1 = d.secp256k1_ec_seckey_tweak_add(ctx, sec, tb)
+                r1 = d.secp256k1_ec_seckey_tweak_add(ctx, sec, tsec)
                 r2 = d.secp256k1_ec_pubkey_tweak_add(ctx, pk2, tb)
                 reason = add_reason(t, exp)
             else:
-                r1 = d.secp256k1_ec_seckey_tweak_mul(ctx, sec, tb)
+                r1 = d.secp256k1_ec_seckey_tweak_mul(ctx, sec, tsec)
                 r2 = d.secp256k1_ec_pubkey_tweak_mul(ctx, pk2, tb)
                 reason = "t>=n" if t >= N else ("zero" if t == 0 else None)
             want = 1 if exp is not None else 0
@@ -194,7 +205,9 @@ def run_history(env, case):
                 classes.add("result_pm1")
         elif name == "negate":
             sec = buf(32, skb)
-            pk2 = buf(64, pk.raw)
+            pk2 = pk if op.get("inplace") else buf(64, pk.raw)
+            if op.get("inplace"):
+                classes.add("alias:inplace")
             r1 = d.secp256k1_ec_seckey_negate(ctx, sec)
             r2 = d.secp256k1_ec_pubkey_negate(ctx, pk2)
             env.require(r1 == 1 and r2 == 1, "negate failed on a valid key (%d, %d)" % (r1, r2))
@@ -240,7 +253,11 @@ def run_history(env, case):
             sec = buf(32, skb)
             if par:
                 env.require(d.secp256k1_ec_seckey_negate(ctx, sec) == 1, "seckey_negate failed on a valid key")
-            r1 = d.secp256k1_ec_seckey_tweak_add(ctx, sec, tb)
+            if op["t"] == "alias_self":
+                classes.add("alias:tweak_is_key")
+                r1 = d.secp256k1_ec_seckey_tweak_add(ctx, sec, sec)
+            else:
+                r1 = d.secp256k1_ec_seckey_tweak_add(ctx, sec, tb)
             q = K.xonly_tweak_add(xpt, t)
             want = 1 if q is not None else 0
             reason = add_reason(t, q)
@@ -274,6 +291,13 @@ def run_history(env, case):
                 variants.append(("other_internal", qx, qpar, opt, oxo, t))
             if chk & 32:
                 variants.append(("internal_as_output", ec.i2b(xpt[0]), 0, xpt, xo, t))
+            if chk & 64:
+                # the two 32-byte inputs of the check are the SAME buffer (tweaked_pubkey32 aliases tweak32)
+                shared = buf(32, tb)
+                wantc = 1 if K.xonly_tweak_add_check(tb, qpar, xpt, t) else 0
+                got = d.secp256k1_xonly_pubkey_tweak_add_check(ctx, shared, c_int(qpar), xo, shared)
+                env.require(got == wantc, "tweak_add_check with tweaked_pubkey32 aliasing tweak32 returned %d, model %d" % (got, wantc), tweak=hex(t))
+                classes.add("alias:check_x_is_tweak")
             for vn, vx, vpar, vint, vxo, vt in variants:
                 wantc = 1 if K.xonly_tweak_add_check(vx, vpar, vint, vt) else 0
                 got = api.tweak_add_check(vx, vpar, vxo, b32(vt))
@@ -288,14 +312,20 @@ def run_history(env, case):
             t = resolve(op["t"], dsk, xpt)
             tb = b32(t)
             classes.add("parity:%d" % par)
-            rk, kp = lib.keypair_create(skb)
+            skbuf = buf(32, skb)
+            kp = buf(96)
+            rk = d.secp256k1_keypair_create(ctx, kp, skbuf)
             env.require(rk == 1, "keypair_create refused a valid key")
             xo = buf(64)
             lpar = c_int(-1)
             env.require(d.secp256k1_keypair_xonly_pub(ctx, xo, byref(lpar), kp) == 1 and lpar.value == par, "keypair_xonly_pub parity differs from the model")
             out = buf(64, b"\xAA" * 64)
             r2 = d.secp256k1_xonly_pubkey_tweak_add(ctx, out, xo, tb)
-            r1 = d.secp256k1_keypair_xonly_tweak_add(ctx, kp, tb)
+            if op["t"] == "alias_self" and not par:
+                classes.add("alias:tweak_is_seckey_buffer")
+                r1 = d.secp256k1_keypair_xonly_tweak_add(ctx, kp, skbuf)
+            else:
+                r1 = d.secp256k1_keypair_xonly_tweak_add(ctx, kp, tb)
             exp = K.keypair_xonly_tweak_add(sk, t)
             want = 1 if exp is not None else 0
             reason = add_reason(t, exp)
@@ -397,7 +427,7 @@ def combine_case(draw):
             if ssum:
                 pool.append(["k", N - ssum])
                 order[draw(st.integers(0, cut)):0] = [len(pool)]
-    return {"pool": pool, "order": order[:200]}
+    return {"pool": pool, "order": order[:200], "distinct": draw(st.sampled_from([0, 0, 1, 2]))}
 
 
 def run_combine(env, case):
@@ -410,12 +440,21 @@ def run_combine(env, case):
     ptrs = []
     for i in case["order"]:
         pt = base[abs(i) - 1] if i > 0 else ec.neg(base[abs(i) - 1])
-        if i not in objs:
-            objs[i] = lib.pubkey_from_point(pt)
+        # distinct 0: one object per pool entry, repeated entries pass the SAME pointer several times; 1: every list entry its own object;
+        # 2: alternate
+        dm = case.get("distinct", 0)
+        key = (i, len(pts)) if (dm == 1 or (dm == 2 and len(pts) % 2)) else (i, -1)
+        if key not in objs:
+            objs[key] = lib.pubkey_from_point(pt)
         pts.append(pt)
-        ptrs.append(objs[i])
+        ptrs.append(objs[key])
     n = len(pts)
     classes = ["n:%s" % ("1" if n == 1 else "2-40" if n <= 40 else "41-200")]
+    addrs = [ctypes.addressof(o) for o in ptrs]
+    if len(set(addrs)) < n:
+        classes.append("aliased_pointer")
+    if len({ec.ser33(q) for q in pts}) < len(set(addrs)):
+        classes.append("equal_in_distinct_objects")
     out = buf(64, b"\xAA" * 64)
     r = d.secp256k1_ec_pubkey_combine(ctx, out, ptr_array(ptrs), c_size_t(n))
     exp = K.pubkey_combine(pts)
@@ -466,7 +505,7 @@ def run_combine(env, case):
     if cancel:
         classes.append("cancelling_pair")
     # inputs untouched
-    for i, o in objs.items():
+    for (i, _), o in objs.items():
         pt = base[abs(i) - 1] if i > 0 else ec.neg(base[abs(i) - 1])
         env.require(api.ser(o) == ec.ser65(pt), "ec_pubkey_combine modified an input key")
     return (dup or cancel or n > 40), classes
@@ -564,19 +603,113 @@ def run_sort(env, case):
     return (dup or pm or n > 40), classes
 
 
+# ------------------------------------------------------------------ backward construction: choose the OUTPUT key, solve for the input
+# A result with a tiny coordinate cannot be reached by choosing scalars, but it can be constructed: take a curve point Q with x < 2^256 - p
+# (so that x + p still fits in 32 bytes) or with tiny y, pick the tweak, and solve for the input key with reference arithmetic.
+XP_LIMIT = M256 - P          # x <= this  <=>  x + p is a 32-byte string
+
+
+def cube_root(a):
+    """p = 7 mod 9: a^((p+2)/9) is a cube root of a when a is a cube"""
+    r = pow(a % P, (P + 2) // 9, P)
+    return r if pow(r, 3, P) == a % P else None
+
+
+def tiny_point(kind, v0, odd):
+    """kind 'x': smallest x >= v0 (<= XP_LIMIT) on the curve; kind 'y': smallest y >= v0 with y^2 - 7 a cube.  y parity `odd` for kind x."""
+    if kind == "x":
+        x = v0 % (XP_LIMIT - 64)
+        while True:
+            pt = ec.lift_x(x, odd)
+            if pt is not None:
+                return pt
+            x += 1
+    y = max(1, v0 % (1 << 32))
+    while True:
+        x = cube_root(y * y - 7)
+        if x is not None:
+            return (x * pow(ec.BETA, odd, P) % P, y)        # any of the three cube roots
+        y += 1
+
+
+@st.composite
+def backward_case(draw):
+    return {"kind": draw(st.sampled_from(["x", "x", "x", "y"])), "v0": draw(st.one_of(st.integers(0, 400), st.integers(0, XP_LIMIT), st.sampled_from([XP_LIMIT - 70, 0, 1]))),
+            "odd": draw(st.integers(0, 2)), "t": draw(st.one_of(gens.seckey_valid, st.integers(1, N - 1), st.sampled_from([1, 2, N - 1]))),
+            "r": draw(gens.seckey_valid)}
+
+
+def run_backward(env, case):
+    api = Api(env)
+    lib, d, ctx = api.lib, api.d, api.ctx
+    lib.reset()
+    Q = tiny_point(case["kind"], case["v0"], case["odd"] if case["kind"] == "y" else case["odd"] & 1)
+    env.require(ec.on_curve(Q), "reference inconsistency: constructed point not on the curve")
+    classes = ["tiny:" + case["kind"]]
+    q65, q33 = ec.ser65(Q), ec.ser33(Q)
+    qpar = Q[1] & 1
+    # --- Taproot: internal key P = Q - t*G with even Y (retry t), then tweak forward
+    t = case["t"]
+    while True:
+        Pi = ec.sub(Q, ec.mulg(t))
+        if Pi is not None and Pi[1] % 2 == 0:
+            break
+        t = t % (N - 1) + 1
+    tb = b32(t)
+    rp, xo = lib.xonly_parse(ec.i2b(Pi[0]))
+    env.require(rp == 1, "xonly_pubkey_parse refused a valid x coordinate")
+    out = buf(64, b"\xAA" * 64)
+    env.require(d.secp256k1_xonly_pubkey_tweak_add(ctx, out, xo, tb) == 1, "xonly_pubkey_tweak_add failed for a valid internal key and tweak")
+    env.require(api.ser(out) == q65 and lib.pubkey_serialize(out) == q33, "xonly_pubkey_tweak_add: result is not the canonical encoding of internal + t*G",
+                lib=(api.ser(out) or b"").hex(), model=q65.hex())
+    oxo, opar = api.xonly_of(out)
+    env.require(lib.xonly_serialize(oxo) == ec.i2b(Q[0]) and opar == qpar, "x-only form of the tweaked key is not the canonical (x, parity)")
+    env.require(api.tweak_add_check(ec.i2b(Q[0]), qpar, xo, tb) == 1, "tweak_add_check rejected the canonical (x, parity) of the tweaked key", x=hex(Q[0]))
+    env.require(api.tweak_add_check(ec.i2b(Q[0]), 1 - qpar, xo, tb) == 0, "tweak_add_check accepted the wrong parity")
+    if Q[0] <= XP_LIMIT:
+        for par in (qpar, 1 - qpar):
+            got = api.tweak_add_check(b32(Q[0] + P), par, xo, tb)
+            env.require(got == 0, "tweak_add_check accepted the non-canonical string x + p for the tweaked key (x = %s)" % hex(Q[0]), parity=par, tweak=hex(t))
+        classes.append("check:noncanonical_x_plus_p")
+    # keypair path is impossible (no secret key); full-key additive tweak
+    pk = lib.pubkey_from_point(Pi)
+    env.require(d.secp256k1_ec_pubkey_tweak_add(ctx, pk, tb) == 1 and api.ser(pk) == q65, "ec_pubkey_tweak_add: result is not the canonical encoding of P + t*G")
+    # --- multiplicative tweak: P = t^-1 * Q
+    Pm = ec.mul(pow(t, -1, N), Q)
+    pk = lib.pubkey_from_point(Pm)
+    env.require(d.secp256k1_ec_pubkey_tweak_mul(ctx, pk, tb) == 1 and api.ser(pk) == q65 and lib.pubkey_serialize(pk) == q33,
+                "ec_pubkey_tweak_mul: result is not the canonical encoding of t*P")
+    # --- combine: (Q - R) + R, negate: -(-Q)
+    R = ec.mulg(case["r"])
+    A = ec.sub(Q, R)
+    if A is not None:
+        o1, o2 = lib.pubkey_from_point(A), lib.pubkey_from_point(R)
+        out = buf(64)
+        env.require(d.secp256k1_ec_pubkey_combine(ctx, out, ptr_array([o1, o2]), c_size_t(2)) == 1 and api.ser(out) == q65,
+                    "ec_pubkey_combine: result is not the canonical encoding of the sum")
+    pk = lib.pubkey_from_point(ec.neg(Q))
+    env.require(d.secp256k1_ec_pubkey_negate(ctx, pk) == 1 and api.ser(pk) == q65 and lib.pubkey_serialize(pk) == q33, "ec_pubkey_negate: result is not the canonical encoding")
+    api.quiet("backward construction")
+    return True, classes
+
+
 TESTS = [
     Test("history", history_case, run_history, quick=3000, thorough=90000, max_workers=8,
          must_cover=["fail:tweak_add:result0", "fail:tweak_add:t>=n", "fail:tweak_mul:zero", "fail:tweak_mul:t>=n", "fail:xonly_tweak_add:result0",
                      "fail:xonly_tweak_add:t>=n", "fail:keypair_xonly_tweak_add:result0", "fail:keypair_xonly_tweak_add:t>=n", "fail:keypair_result0_odd",
                      "xonly_ok_par1", "keypair_ok_par1", "keypair_ok_par0", "invalid_key:zero", "invalid_key:n", "check:flip_parity:0",
-                     "check:other_tweak:0", "result_pm1", "op:negate", "op:to_xonly", "op:keypair_create", "taptweak"]),
+                     "check:other_tweak:0", "result_pm1", "op:negate", "op:to_xonly", "op:keypair_create", "taptweak", "alias:tweak_is_key", "alias:inplace", "alias:check_x_is_tweak",
+                     "alias:tweak_is_seckey_buffer"]),
     # alternative limb configurations (10x26 field / 8x32 scalar, int128 struct) in the quick tier as well
     Test("history_cfg", history_case, run_history, quick=700, thorough=6000, max_workers=3,
          cfgs={"quick": ["int64", "struct"], "thorough": ["int64", "struct", "noasm"]},
-         must_cover=["fail:tweak_add:result0", "fail:xonly_tweak_add:result0", "op:negate", "taptweak"]),
+         must_cover=["fail:tweak_add:result0", "fail:xonly_tweak_add:result0", "op:negate", "taptweak", "alias:tweak_is_key"]),
     Test("combine", combine_case, run_combine, quick=1500, thorough=50000, max_workers=4,
-         must_cover=["sum_infinity", "sum_ok", "prefix_infinity", "duplicate", "cancelling_pair", "n:41-200", "n:1", "secret_sum_checked"]),
+         must_cover=["sum_infinity", "sum_ok", "prefix_infinity", "duplicate", "cancelling_pair", "n:41-200", "n:1", "secret_sum_checked", "aliased_pointer",
+                     "equal_in_distinct_objects"]),
     Test("sort", sort_case, run_sort, quick=1500, thorough=50000, max_workers=4,
          must_cover=["n:41-200", "n:0", "n:1", "duplicate", "aliased_pointer", "equal_in_distinct_objects", "P_and_minus_P", "cmp:0", "cmp:1", "cmp:-1",
                      "cmp:same_x", "cmp:shared_prefix", "reordered"]),
+    Test("backward", backward_case, run_backward, quick=600, thorough=20000, max_workers=3,
+         must_cover=["check:noncanonical_x_plus_p", "tiny:x", "tiny:y"]),
 ]
